@@ -62,7 +62,7 @@ package fox
 //@   assert-at call call#5 : @C12 live-context: !released[arg_c]
 //@   assert-at call call#6 : @C12 live-context: !released[arg_c]
 //@   -- the request context goes back to the pool of the tree it was taken from, on every path
-//@   ensures @C16,C12 pool-balance: poolOut[&old(pt(fox)).ctx] == old(poolOut[&pt(fox).ctx])
+//@   ensures @C16,C12,C05 pool-balance: poolOut[&old(pt(fox)).ctx] == old(poolOut[&pt(fox).ctx])
 //@   ensures one-handler: hCalls == old(hCalls) + 1
 //@   ensures request: hReq == r
 //@   ensures @C01,C08,C11,C12,C13,C16,C17,C19,C20 direct: old(isDirect(fox, r)) ==> hFn == old(sn(fox, r).route.hall) && hRoute == old(sn(fox, r).route) && !hTsr && hScope == RouteHandler
